@@ -496,6 +496,41 @@ class Body:
             if si and si["kind"] == "enum" and r.search(si["enum"]):
                 if origin_pred is None or any(origin_pred(a) for a in si["atoms"]):
                     out.append((bb, si["edges"], si["otherwise"], si))
+                    out.extend(self._matches_then_branch(bb, si))
+        return out
+
+    def _matches_then_branch(self, ebb, esi):
+        """`if matches!(x, E::V) {..}` / `if !matches!(..)`: the enum switch at ebb only assigns a bool temp in each arm, the arms join, and a
+        later bool switch branches on that temp.  Returns the synthesised enum guard located at that bool switch: variant -> its successor."""
+        arms = dict(esi["edges"])
+        ow = esi["otherwise"]
+        vals = {}          # arm block -> (local, bool literal)
+        for blk in set(list(arms.values()) + ([ow] if ow is not None else [])):
+            st = [s for s in self.blocks[blk]["s"] if s["k"] == "="]
+            if len(st) != 1 or st[0]["rv"]["k"] != "use" or st[0]["rv"]["o"][0] != "k" or len(st[0]["p"]) != 1:
+                return []
+            v = str(st[0]["rv"]["o"][1].get("v"))
+            if st[0]["rv"]["o"][1].get("ty") != "bool" or v not in ("0", "1", "true", "false"):
+                return []
+            if self.blocks[blk]["t"]["k"] != "goto":
+                return []
+            vals[blk] = (st[0]["p"][0], v in ("1", "true"))
+        locs = {l for l, _ in vals.values()}
+        if len(locs) != 1:
+            return []
+        loc = next(iter(locs))
+        out = []
+        for sb in self.switches():
+            si = self.switch_info(sb)
+            if not si or si["kind"] != "bool":
+                continue
+            neg, cur = self.peel_not(self.blocks[sb]["t"]["o"])
+            if cur[0] == "k" or cur[1] != [loc]:
+                continue
+            # si["true"]/["false"] are already expressed for the peeled (un-negated) operand
+            edges = {v: (si["true"] if vals[blk][1] else si["false"]) for v, blk in arms.items()}
+            o2 = (si["true"] if vals[ow][1] else si["false"]) if ow is not None else None
+            out.append((sb, edges, o2, dict(esi, via_matches=ebb)))
         return out
 
     def try_guards(self, callee_pattern):
